@@ -16,7 +16,7 @@ def history(draw):
   created = 2
   for _ in range(n):
     k = draw(st.sampled_from(["new", "assign", "assign", "read", "read", "read", "augment", "augment_from",
-                              "discard", "subclass"]))
+                              "augment_side", "discard", "subclass"]))
     if k == "new":
       ops.append(["new", draw(st.integers(0, 1))])
       created += 1
@@ -37,6 +37,9 @@ def history(draw):
         ops.append(["read", inst, attr])
       elif k == "augment_from":
         ops.append([k, inst, attr, draw(st.integers(0, created - 1))])
+      elif k == "augment_side":
+        # a.x += f() where f, on its way, assigns the same attribute of another instance
+        ops.append([k, inst, attr, draw(st.integers(0, created - 1)), draw(st.integers(-5, 5))])
       else:
         ops.append([k, inst, attr, draw(st.integers(-5, 5))])
   return {"nattr": nattr, "base": base, "ops": ops,
@@ -51,21 +54,76 @@ class C29(Prop):
           "ThreadSafeAttributes or ActiveObjectWithAttributes, or two sibling classes with the same "
           "attribute names) with 1-3 names in _attributes, then 2-12 operations from: create an "
           "instance, assign an attribute on an instance, augment (+=) it by a number or by the same attribute "
-          "of another instance (a.x += b.x), read it, define a subclass late (inheriting or re-listing the names) and "
+          "of another instance (a.x += b.x) or by a call that assigns another instance's attribute on its way (a.x += f()), read it, define a subclass late (inheriting or re-listing the names) and "
           "create its first instance, discard an instance "
           "(dropped and garbage collected, then a new one is created - possibly at the same address); "
           "in a quarter of the cases the classes make their instances falsy (__len__ / __bool__). Oracle: a dict "
           "keyed by (instance, attribute) that defaults to 0: every read returns the model value of "
           "THAT instance, and after every assignment every attribute of every live instance is read "
           "back and compared. Non-trivial: an assignment to one instance is made while another live "
-          "instance holds a different non-zero value of the same attribute; distinct = distinct case digests.")
-  assumptions = ["single-threaded; the statements live in this real source file (miros inspects the "
-                 "caller's source line)"]
+          "instance holds a different non-zero value of the same attribute; distinct = distinct case digests. A quarter "
+          "of the cases are threaded instead: 2-3 threads under the deterministic scheduler, each writing, augmenting "
+          "and reading back ITS OWN instance of one class (pre-emption at every line of miros/thread_safe_attributes.py): "
+          "every read returns what that thread last wrote.")
+  assumptions = ["the statements live in this real source file (miros inspects the caller's source line)",
+                 "the threaded cases run under the deterministic scheduler with a virtual RLock"]
 
   def strategy(self, tier):
-    return history()
+    from .c04 import schedule_st
+    fine = st.lists(st.tuples(st.integers(0, 4), st.integers(1, 6)), max_size=80)
+    threaded = st.fixed_dictionaries({
+      "threaded": st.just(True), "nthreads": st.integers(2, 3), "rounds": st.integers(1, 4),
+      "schedule": st.one_of(schedule_st, fine).map(lambda l: [list(x) for x in l])})
+    return st.one_of(history(), history(), history(), threaded)
+
+  def check_threaded(self, case, stats):
+    """Each thread owns one instance of the same class and only ever touches that instance: every
+    read returns what that thread last wrote, whatever the other threads do to THEIR instances."""
+    from .. import detsched
+    ao = detsched.install()
+    detsched.reset(ao)
+    import miros
+    files = detsched.miros_files()
+    klass = type("VfOwned", (miros.ThreadSafeAttributes,), {"_attributes": ["alpha"]})
+    bad = []
+
+    def worker(o, base, rounds):
+      for r in range(rounds):
+        o.alpha = base + r
+        got = o.alpha
+        if got != base + r:
+          bad.append((base, base + r, got))
+        o.alpha += 1000
+        got = o.alpha
+        if got != base + r + 1000:
+          bad.append((base, base + r + 1000, got))
+
+    def body(s):
+      objs = [klass() for _ in range(case["nthreads"])]
+      ths = [ao.Thread(target=worker, args=(objs[t], 100 * (t + 1), case["rounds"]), name="w%d" % t)
+             for t in range(case["nthreads"])]
+      for t in ths:
+        t.start()
+      for t in ths:
+        t.join()
+    s = detsched.Scheduler(schedule=case["schedule"], step_limit=300000,
+                           trace_files=[files["thread_safe_attributes"]])
+    try:
+      detsched.guarded_run(s, body)
+    except (detsched.Deadlock, detsched.StepLimit) as e:
+      raise PropertyViolation("threads that each use their own instance did not finish: %s" % e, "C29:liveness")
+    stats.case(case, True, ["threaded", "threads_%d" % case["nthreads"]])
+    if s.thread_errors:
+      name, e, tb = s.thread_errors[0]
+      raise PropertyViolation("thread %s died: %s: %s" % (name, type(e).__name__, e), "C29:raised")
+    if bad:
+      base, want, got = bad[0]
+      self.violation(stats, "a thread that only uses its own instance (values %d..) wrote %d and read %d back "
+                     "while other threads used their instances" % (base, want, got), "C29:shared-between-instances")
 
   def check(self, case, stats):
+    if case.get("threaded"):
+      return self.check_threaded(case, stats)
     import miros
     names = ATTRS[:case["nattr"]]
     if case["base"] == "ActiveObjectWithAttributes":
@@ -144,6 +202,24 @@ class C29(Prop):
           else:
             o.gamma += op[3]
           model[key] = model.get(key, 0) + op[3]
+        elif op[0] == "augment_side":
+          o2 = insts[op[3]]
+          if o2 is None:
+            continue
+
+          def side_store(target, attribute, value):
+            setattr(target, attribute, value)
+            return 1
+          if name == "alpha":
+            o.alpha += side_store(o2, name, op[4])
+          elif name == "beta":
+            o.beta += side_store(o2, name, op[4])
+          else:
+            o.gamma += side_store(o2, name, op[4])
+          o2 = None
+          old = model.get(key, 0)
+          model[(op[3], name)] = op[4]
+          model[key] = old + 1
         elif op[0] == "augment_from":
           # the right-hand side reads the same attribute of (possibly) another instance, on one line
           o2 = insts[op[3]]
@@ -157,7 +233,7 @@ class C29(Prop):
             o.gamma += o2.gamma
           o2 = None
           model[key] = model.get(key, 0) + model.get((op[3], name), 0)
-        if op[0] in ("assign", "augment", "augment_from"):
+        if op[0] in ("assign", "augment", "augment_from", "augment_side"):
           # discriminating: another live instance holds a different value of this attribute
           for j, other in enumerate(insts):
             if other is not None and j != op[1] and model.get((j, name), 0) != model.get(key, 0) \
